@@ -346,6 +346,43 @@ theorem c09_stream_compose (t : Text) (sm : SMap) (n : Text) (os : Option Text) 
                 ∧ ∀ y, mm.orig = some y → (annS (streamCombined t sm n os im rm ⟨true, false⟩).evs)[y.src]? = some n ∧ y.line = a.line ∧ y.col = a.col) :=
   streamCombined_compose t sm n os im rm Tin h1 h2 honce hTin ha hl hs hseg
 
+/-- **C09, contents, whole stream.**  Every file the combined stream reports carries a matching content: a file of the outer map other
+than the inner source with the content the outer map's stream announces for it; the inner source itself with the supplied original
+source (else the content the outer map lists for it); or a file of the inner map with the content the inner map's own stream
+announces (its `sourcesContent`) -/
+theorem c09_contents (t : Text) (sm : SMap) (n : Text) (os : Option Text) (im : SMap) (rm : Bool) (Tin : Text)
+    (h1 : MapIdxOK sm) (h2 : MapIdxOK im) (honce : OnceInner n (smSourceEvs sm ++ smNameEvs sm))
+    (hTin : ∀ k c, Ev.source k n c ∈ smSourceEvs sm ++ smNameEvs sm → (os.or c).getD [] = Tin)
+    (ha : IsAscii Tin) (hl : Tin.length ≤ USIZE_MAX) (hseg : MapInside Tin im) :
+    ∀ i s cc, Ev.source i s cc ∈ (streamCombined t sm n os im rm ⟨true, false⟩).evs →
+      (∃ j, Ev.source j s cc ∈ (streamSM t sm ⟨true, false⟩).evs ∧ s ≠ n)
+      ∨ (s = n ∧ ∃ k c, Ev.source k n c ∈ (streamSM t sm ⟨true, false⟩).evs ∧ cc = os.or c)
+      ∨ (∃ j, Ev.source j s cc ∈ (streamSM Tin im ⟨true, false⟩).evs) :=
+  streamCombined_contents t sm n os im rm Tin h1 h2 honce hTin ha hl hseg
+
+/-- **C09, the name rule of composed chunks, whole stream**: "the inner name, else the outer name only if it matches the original text".
+In the situation of `c09_stream_compose` with the inner map assigning `o'`: a name the delivered chunk carries is the name the inner
+map's own stream announces for `o'` (then the column was not advanced), or the outer chunk's name — and the latter only if it equals
+the original text, of the name's length, at the delivered location in the content the inner map's stream announces for `o'`'s file -/
+theorem c09_names (t : Text) (sm : SMap) (n : Text) (os : Option Text) (im : SMap) (rm : Bool) (Tin : Text)
+    (h1 : MapIdxOK sm) (h2 : MapIdxOK im) (honce : OnceInner n (smSourceEvs sm ++ smNameEvs sm))
+    (hTin : ∀ k c, Ev.source k n c ∈ smSourceEvs sm ++ smNameEvs sm → (os.or c).getD [] = Tin)
+    (ha : IsAscii Tin) (hl : Tin.length ≤ USIZE_MAX) (hs : sortedFrom 1 0 (decode im.mappings))
+    (hseg : ∀ x ∈ decode im.mappings, SegOK (splitLines Tin) (adv startPos Tin).line (adv startPos Tin).col x) :
+    ∀ t' mm, Ev.chunk t' mm ∈ (streamCombined t sm n os im rm ⟨true, false⟩).evs →
+      ∃ m, Ev.chunk t' m ∈ (streamSM t sm ⟨true, false⟩).evs ∧ mm.gl = m.gl ∧ mm.gc = m.gc ∧
+        ∀ a, m.orig = some a → (annS (streamSM t sm ⟨true, false⟩).evs)[a.src]? = some n →
+          ∀ j, j < Tin.length → adv startPos (Tin.take j) = ⟨a.line, a.col⟩ →
+            ∀ o', lookupCols (decode im.mappings) a.line a.col = some o' → ∀ y, mm.orig = some y → ∀ k, y.name = some k →
+              (∃ i, o'.name = some i ∧ y.col = o'.col
+                  ∧ (annN (streamCombined t sm n os im rm ⟨true, false⟩).evs)[k]? = (annN (streamSM Tin im ⟨true, false⟩).evs)[i]?
+                  ∧ i < (annN (streamSM Tin im ⟨true, false⟩).evs).length)
+              ∨ (∃ i nm c, a.name = some i ∧ (annN (streamSM t sm ⟨true, false⟩).evs)[i]? = some nm
+                  ∧ (annN (streamCombined t sm n os im rm ⟨true, false⟩).evs)[k]? = some nm
+                  ∧ ((annSC (streamSM Tin im ⟨true, false⟩).evs)[o'.src]?).map (·.2) = some (some c)
+                  ∧ nm = origTextAt (splitLines c) o'.line y.col nm.length) :=
+  streamCombined_names t sm n os im rm Tin h1 h2 honce hTin ha hl hs hseg
+
 /-- non-vacuity: the hypotheses hold for the witness of F15 (outer sources `abc`, `in.js`; inner map `KAAA` over `"hello world"`) -/
 example : OnceInner [105, 110, 46, 106, 115]
       (smSourceEvs ⟨[65, 65, 65, 65, 44, 67, 67, 65, 65, 44, 67, 65, 65, 75], [[97, 98, 99], [105, 110, 46, 106, 115]], [], [], none, none, none⟩
